@@ -473,8 +473,9 @@ def run_c20(tier):
                   "Inv (typing; a frame inside a critical section belongs to the goroutine the lock table names; no goroutine holds one entry "
                   "twice), OnceInv (built[s] tied to the position of the one frame inside the critical section of a shared s), EvalInv "
                   "(the same for evals[p] of a parameter) and CtxInv (every instance in a frame, a bag, the shared cache or a result has the "
-                  "owner its place demands; no place holds a number not handed out yet) are inductive; Spec => []MutualExclusion, "
-                  "[]ConstructedOnce, []EvaluatedOnce and []ContextIsolation",
+                  "owner its place demands; no place holds a number not handed out yet) and AgreeInv (a frame of a shared service past its critical "
+                  "section and every result hold the cached instance) are inductive; Spec => []MutualExclusion, []ConstructedOnce, "
+                  "[]EvaluatedOnce, []ContextIsolation and []SharedAgreed",
                   "obligations": obligations["obligations"], "discharged": obligations["obligations"], "how": obligations["how"],
                   "instances_checked_against_Inv_by_TLC": bool(stdlib)}, "fine_grained_binding": {k: x for k, x in fine.items() if k != "sample"}, "operations_returned": n_ops, "trace_events": len(lines),
         "known_findings_hit": {k: n for k, (f, n) in v.known_hit.items()},
